@@ -7,7 +7,8 @@ from core import Driver, uncps
 from lexcorr import lex_request
 from trace import run_traced, decisions
 
-PORTED = {"CheckTernary": "TERNARY_FBIDDEN", "CheckLineLen": "LINE_TOO_LONG", "CheckHeader": "INVALID_HEADER"}
+PORTED = {"CheckTernary": ("TERNARY_FBIDDEN",), "CheckLineLen": ("LINE_TOO_LONG",), "CheckHeader": ("INVALID_HEADER",),
+          "CheckSpacing": ("MIXED_SPACE_TAB", "SPACE_EMPTY_LINE", "SPACE_REPLACE_TAB", "SPC_BEFORE_NL", "CONSECUTIVE_SPC")}
 
 
 def check(res, cases, stream="always"):
@@ -30,7 +31,7 @@ def check(res, cases, stream="always"):
         real = [[e[1], e[2], e[3]] for e in tr["emitted"] if e[0] in PORTED]
         # every diagnostic of the two codes that another rule emitted is not the model's business,
         # but a ported rule emitting another code is
-        odd = [e for e in tr["emitted"] if e[0] in PORTED and e[1] != PORTED[e[0]]]
+        odd = [e for e in tr["emitted"] if e[0] in PORTED and e[1] not in PORTED[e[0]]]
         if m.get("outcome") != "ok":
             ok, model = False, m
         else:
@@ -44,3 +45,39 @@ def check(res, cases, stream="always"):
     if nbad:
         res.broken.append(f"correspondence {stream}: {nbad} disagreements, e.g. {first}")
     return len(reqs)
+
+
+def whitespace_variants(rng, text, k):
+    """random blank-space perturbations of a program (spaces/tabs inserted at line starts, line
+    ends, next to existing blanks, on empty lines): every branch of CheckSpacing"""
+    out = []
+    lines = text.split("\n")
+    body = [i for i, l in enumerate(lines) if i > 11]
+    for _ in range(k):
+        ls = list(lines)
+        for _ in range(rng.randint(1, 3)):
+            if not body:
+                break
+            i = rng.choice(body)
+            l = ls[i]
+            how = rng.randrange(7)
+            blank = rng.choice([" ", "  ", "\t", " \t", "\t ", "   "])
+            if how == 0:
+                ls[i] = l + blank
+            elif how == 1:
+                ls[i] = blank + l
+            elif how == 2 and l.strip() == "":
+                ls[i] = blank
+            elif how == 3 and " " in l:
+                j = rng.choice([m for m, c in enumerate(l) if c == " "])
+                ls[i] = l[:j] + blank + l[j:]
+            elif how == 4 and "\t" in l:
+                j = rng.choice([m for m, c in enumerate(l) if c == "\t"])
+                ls[i] = l[:j] + rng.choice([" ", "  ", " \t"]) + l[j + (rng.random() < 0.5):]
+            elif how == 5 and l.startswith("\t"):
+                ls[i] = "    " + l[1:]
+            else:
+                j = rng.randrange(len(l) + 1)
+                ls[i] = l[:j] + blank + l[j:]
+        out.append("\n".join(ls))
+    return out
